@@ -23,7 +23,8 @@ func init() {
 			"(R4) every command generator installs a fresh variable scope before generating search instructions; " +
 			"(R5) package-level state written during Compile is re-initialised before use. " +
 			"Does NOT decide that an inlined copy and a call behave alike in the VM, nor uniqueness of the random loop ids." +
-			" Round 4: (R10) no address of a per-loop variable is kept across iterations (go 1.19 loop-variable semantics).",
+			" Round 4: (R10) no address of a per-loop variable is kept across iterations (go 1.19 loop-variable semantics)." +
+			" (R11) the identity of a subroutine activation is an offset-derived instruction field (same rule as C01.R10).",
 		Assumptions: commonAssumptions,
 		Rules: []RuleFn{
 			{Name: "C13.R1", Run: func(c *Ctx) { ruleAdjustPure(c, "C13.R1") }},
@@ -34,6 +35,7 @@ func init() {
 			{Name: "C13.R10", Run: func(c *Ctx) {
 				ruleLoopVarAddressNotKept(c, "C13.R10", []string{"ast", "bytecode", "engine", "libvore", "files"})
 			}},
+			{Name: "C13.R11", Run: func(c *Ctx) { ruleActivationIdentity(c, "C13.R11") }},
 			{Name: "C13.R3", Run: func(c *Ctx) { ruleProgramReadOnly(c, "C13.R3") }},
 			{Name: "C13.R4", Run: func(c *Ctx) { ruleCommandScope(c, "C13.R4") }},
 			{Name: "C13.R6", Run: func(c *Ctx) { ruleAttemptFresh(c, "C13.R6") }},
@@ -44,7 +46,8 @@ func init() {
 		ID: "C01",
 		Explanation: "The input/output equivalence with a reference matcher is NOT decided. Decided are four structural mechanisms named by the property's anchors: (R1) dispatch completeness - every concrete node/instruction type converted to a pipeline interface has a case of the same pointer-ness in the consumer's type switch, and the character-class enum switches are exhaustive; (R2) relocation completeness - every instruction field that receives an offset-derived program counter in the generator is shifted by adjust; (R3) scan discipline - the next start position of findMatches is the end of the successful non-empty attempt or exactly one byte further, line/column updated from the byte stepped over, loop exit at the end of input; attempts start from a fresh VM state; (R4) adjust is applied only to the stored body of a definition; (R5) greedy/lazy loop protocol as a typestate: where the checkpoint sits relative to the continuing and the leaving branch; (R6) every checkpoint popped from the backtrack stack is resumed on all paths, and checkpoints are isolated snapshots (R6b = C02.R1). " +
 			"Not decided: per-instruction semantics, priority order of alternatives, what each jump target means to the VM." +
-			" Round 4: (R8) with every read at the current offset returning \"\" and the offset equal to reader.Size(), no primitive reaches CONSUME (helpers that consume for their callers hand the obligation on; CONSUME(reader.Size()) and progress-tested CONSUMEs exempt); (R9) the zero-width cut is control-dependent on `iteration >= MinLoops`.",
+			" Round 4: (R8) with every read at the current offset returning \"\" and the offset equal to reader.Size(), no primitive reaches CONSUME (helpers that consume for their callers hand the obligation on; CONSUME(reader.Size()) and progress-tested CONSUMEs exempt); (R9) the zero-width cut is control-dependent on `iteration >= MinLoops`." +
+			" (R10) the identity of a subroutine activation is an offset-derived instruction field.",
 		Assumptions: commonAssumptions,
 		Rules: []RuleFn{
 			{Name: "C01.R1", Run: func(c *Ctx) {
@@ -66,6 +69,7 @@ func init() {
 			{Name: "C01.R7", Run: func(c *Ctx) { ruleAlternativeOrder(c, "C01.R7") }},
 			{Name: "C01.R8", Run: func(c *Ctx) { ruleNothingConsumedAtEnd(c, "C01.R8") }},
 			{Name: "C01.R9", Run: func(c *Ctx) { ruleZeroWidthCutRespectsMinimum(c, "C01.R9") }},
+			{Name: "C01.R10", Run: func(c *Ctx) { ruleActivationIdentity(c, "C01.R10") }},
 			{Name: "C01.R3", Run: func(c *Ctx) { ruleScanDiscipline(c, "C01.R3"); ruleAttemptFresh(c, "C01.R3b") }},
 		},
 	})
@@ -105,7 +109,8 @@ func init() {
 		ID: "C05",
 		Explanation: "Decides the structural conditions of `a replacement is the concatenation of its with-items for that match`: (R1) dispatch completeness for with-items (AstAtom -> generator, ReplaceInstruction -> executeReplace); (R2) every store to the replacement text appends to the previous text, and match records are written only by MakeMatch (plus Replacement by the two write primitives); (R3) every match gets a replacer state of its own - the state the replacer program starts from, found by role, is created per match (or per call of the helper that handles one match) from a deep copy of that match's variables, and its match is what is reported; (R3b) no table that is written while one match is replaced is installed into the state of the next; (R7) every run of a transform or predicate gets an environment map created for that run; (R6) the kind of a with-item depends only on the transform table, and WRITEVAR appends exactly when the name is bound to a string. " +
 			"Does NOT decide what a transform computes (C11) nor the order of items beyond program order." +
-			" Round 4: (R10) the built-in matchNumber derives from Match.MatchNumber.",
+			" Round 4: (R10) the built-in matchNumber derives from Match.MatchNumber." +
+			" (R11) with every status read fixed to the one set by `return`, no loop that runs process statements goes round again.",
 		Assumptions: commonAssumptions,
 		Rules: []RuleFn{
 			{Name: "C05.R1", Run: func(c *Ctx) {
@@ -120,6 +125,7 @@ func init() {
 			{Name: "C05.R8", Run: func(c *Ctx) { ruleBuiltinsWin(c, "C05.R8") }},
 			{Name: "C05.R9", Run: func(c *Ctx) { ruleTransformBoundAtCompileTime(c, "C05.R9") }},
 			{Name: "C05.R10", Run: func(c *Ctx) { ruleMatchNumberBuiltin(c, "C05.R10") }},
+			{Name: "C05.R11", Run: func(c *Ctx) { ruleReturnStopsStatements(c, "C05.R11") }},
 			{Name: "C05.R5", Run: func(c *Ctx) { rulePlumbing(c, "C05.R5") }},
 			{Name: "C05.R6", Run: func(c *Ctx) { ruleItemKinds(c, "C05.R6") }},
 		},
@@ -173,7 +179,8 @@ func init() {
 	register(&Property{
 		ID: "C06",
 		Explanation: "Decides the structural part of `replace writes the exact splice and each mode touches only its file`: (R1) the mode table of searchReplace - NEW opens only <file>+suffix for writing, OVERWRITE loads the original into memory before the truncating open of the file itself, NOTHING writes to memory; Run uses NOTHING and RunFiles forces NOTHING under -filenames; (R2) who may modify the file system: in the library only files.WriterFromFile opens for writing (called only by searchReplace) and RunFiles renames under processFilenames; nothing reachable from searchFind can write; (R3) the writer is opened with create|truncate|write; (R4) cursor pairing in the splice loop: the gap and the replacement are written at consecutive positions, the cursors advance by gap+len(replacement) and gap+len(match) on every path around the loop, the tail is copied, the writer is closed; (R5) every command searches a file through a reader opened for it in the same loop iteration, so a later command reads what an earlier one wrote. " +
-			"Does NOT decide the arithmetic itself (that gaps and values tile the input), short reads, or MemoryStream/OS write semantics.",
+			"Does NOT decide the arithmetic itself (that gaps and values tile the input), short reads, or MemoryStream/OS write semantics." +
+			" Round 4: (R7) every Read([]byte) implementation in package files delivers len(p) bytes when it returns no error.",
 		Assumptions: commonAssumptions,
 		Rules: []RuleFn{
 			{Name: "C06.R1", Run: func(c *Ctx) { ruleModeTable(c, "C06.R1") }},
@@ -181,11 +188,13 @@ func init() {
 			{Name: "C06.R4", Run: func(c *Ctx) { ruleSpliceLoop(c, "C06.R4") }},
 			{Name: "C06.R5", Run: func(c *Ctx) { ruleReaderPerSearch(c, "C06.R5") }},
 			{Name: "C06.R6", Run: func(c *Ctx) { ruleReaderOffsetsAreFileOffsets(c, "C06.R6") }},
+			{Name: "C06.R7", Run: func(c *Ctx) { ruleFullReads(c, "C06.R7") }},
 		},
 	})
 	register(&Property{
-		ID:          "C07",
-		Explanation: "The equivalence of buffered file reading with in-memory reading over all sizes and seek/read histories is a property of the window arithmetic in BufferedFile.Seek/Read and is NOT decided. Decided: (R1) no read in package files turns end of input into a panic (io.EOF excluded, or at least one byte requested and available); (R2) each Reader constructor sets size to the length of what its contents deliver; (R3) Reader.Read is called only after a Seek on the same reader (axiom A5) and BufferedFile's methods never use the OS file cursor, only positioned ReadAt; (R4) every search gets a reader opened for it in the same loop iteration (no reader, with its buffered window and size, is kept across commands).",
+		ID: "C07",
+		Explanation: "The equivalence of buffered file reading with in-memory reading over all sizes and seek/read histories is a property of the window arithmetic in BufferedFile.Seek/Read and is NOT decided. Decided: (R1) no read in package files turns end of input into a panic (io.EOF excluded, or at least one byte requested and available); (R2) each Reader constructor sets size to the length of what its contents deliver; (R3) Reader.Read is called only after a Seek on the same reader (axiom A5) and BufferedFile's methods never use the OS file cursor, only positioned ReadAt; (R4) every search gets a reader opened for it in the same loop iteration (no reader, with its buffered window and size, is kept across commands)." +
+			" Round 4: (R9) every Read([]byte) implementation in package files delivers len(p) bytes when it returns no error.",
 		Assumptions: commonAssumptions,
 		Rules: []RuleFn{
 			{Name: "C07.R1", Run: func(c *Ctx) { ruleEOFNotAnError(c, "C07.R1") }},
@@ -196,6 +205,7 @@ func init() {
 			{Name: "C07.R6", Run: func(c *Ctx) { ruleReaderOffsetsAreFileOffsets(c, "C07.R6") }},
 			{Name: "C07.R7", Run: func(c *Ctx) { ruleNoSharedBuffers(c, "C07.R7") }},
 			{Name: "C07.R8", Run: func(c *Ctx) { ruleReadOffsetsNonNegative(c, "C07.R8") }},
+			{Name: "C07.R9", Run: func(c *Ctx) { ruleFullReads(c, "C07.R9") }},
 		},
 	})
 	register(&Property{
@@ -209,7 +219,7 @@ func init() {
 				evalDischarge := func() (bool, string) {
 					t := c.extractCheckerTables()
 					if t.err != "" {
-						return false, "cannot extract the checker table: " + t.err
+						return false, "UNDECIDED: cannot extract the checker table: " + t.err
 					}
 					for _, k := range sortedKeys(t.binary) {
 						if t.binary[k] == "PTERROR" {
@@ -219,7 +229,11 @@ func init() {
 						if p[0] == "PTERROR" || p[2] == "PTERROR" {
 							continue
 						}
-						if cell := c.evalBinaryCell(p[1], p[0], p[2]); cell.Panic || cell.Err != "" {
+						cell := c.evalBinaryCell(p[1], p[0], p[2])
+						if cell.Err != "" {
+							return false, "UNDECIDED: the evaluator's cell for the accepted combination " + k + " could not be extracted: " + cell.Err
+						}
+						if cell.Panic {
 							return false, "reachable for the accepted combination " + k
 						}
 					}
@@ -306,7 +320,8 @@ func init() {
 		ID: "C11",
 		Explanation: "Decides that the evaluator implements the documented operator/coercion table: (R1) for every documented cell the leaf of executeBinaryExpr, extracted by partial evaluation over the tag domain (operator x operand types), reads both operands through the accessor of the left operand's type, applies the documented Go operator and builds the documented result type; the oracle is the Type Coersion table of docs/language/LanguageDetails.md, parsed on every run; " +
 			"(R2) the nine coercion accessors compute the documented conversions; (R3) the Pratt parser's binding powers give the documented precedence levels and left associativity; (R4) not/head/tail. " +
-			"Does NOT decide strconv and Go operator semantics (trusted), nor integer overflow behaviour.",
+			"Does NOT decide strconv and Go operator semantics (trusted), nor integer overflow behaviour." +
+			" Round 4: (R6) `return` ends the process code (same rule as C05.R11).",
 		Assumptions: append([]string{"the documentation table is the specification; a documented row with a coerced-number left operand denotes string-on-the-left with a number on the right"}, commonAssumptions...),
 		Rules: []RuleFn{
 			{Name: "C11.R1", Run: func(c *Ctx) { ruleEvaluatorTable(c, "C11.R1") }},
@@ -314,6 +329,7 @@ func init() {
 			{Name: "C11.R3", Run: func(c *Ctx) { rulePrecedence(c, "C11.R3") }},
 			{Name: "C11.R4", Run: func(c *Ctx) { ruleUnaryTable(c, "C11.R4") }},
 			{Name: "C11.R5", Run: func(c *Ctx) { ruleNoExpressionRewrites(c, "C11.R5") }},
+			{Name: "C11.R6", Run: func(c *Ctx) { ruleReturnStopsStatements(c, "C11.R6") }},
 		},
 	})
 	register(&Property{
@@ -355,7 +371,8 @@ func init() {
 	register(&Property{
 		ID: "C15",
 		Explanation: "Decides the skip discipline that makes whitespace, comments and keyword case irrelevant: (R1) every token-kind test of the hand-written parser (comparison of tokens[i].TokenType with a kind other than WS/COMMENT, or a kind handed to a predicate helper) looks at an index that is the result of consumeIgnoreableTokens, is the function's own parameter (then every call site must pass a skipped index), or - for indexes returned by callees - whose callee summary says `skipped` (typestate over SSA with function summaries, greatest fixpoint); (R2) the expression-token filter drops exactly the kinds the skipper skips; (R3) keywords are matched on strings.ToLower of the whole lexeme and are spelled in lower case; (R4) if the lexer keeps a memory of tokens it produced and reads it back, every store into it is guarded by tests that exclude WS and COMMENT. " +
-			"A raw decision means: inserting a blank or a comment at that gap changes the branch taken. Does NOT decide the lexer's comment state machine nor equality of the resulting syntax trees.",
+			"A raw decision means: inserting a blank or a comment at that gap changes the branch taken. Does NOT decide the lexer's comment state machine nor equality of the resulting syntax trees." +
+			" Round 4: (R6) with the lexer state fixed to a comment state only arms reached because of the state (or end-of-input arms) stay reachable.",
 		Assumptions: commonAssumptions,
 		Rules: []RuleFn{
 			{Name: "C15.R1", Run: func(c *Ctx) {
@@ -368,6 +385,7 @@ func init() {
 			{Name: "C15.R3", Run: func(c *Ctx) { ruleKeywordCase(c, "C15.R3") }},
 			{Name: "C15.R4", Run: func(c *Ctx) { ruleLexerTokenMemory(c, "C15.R4") }},
 			{Name: "C15.R5", Run: func(c *Ctx) { ruleLexemeComparedRaw(c, "C15.R5") }},
+			{Name: "C15.R6", Run: func(c *Ctx) { ruleCommentStatesOwnTheirCharacters(c, "C15.R6") }},
 		},
 	})
 	register(&Property{
